@@ -505,6 +505,14 @@ fn check_model(m: &Model, lay: &Layout, obs: &mut Obs) -> Verdict {
     };
     let want: Vec<Result<(usize, Vec<u8>), String>> = m.present().into_iter().map(|i| Ok((i, m.slots[i].clone().expect("present")))).collect();
     ensure_eq!(walked, want, "iter_modules() against the present modules in id order");
+    // ... however the iterator is driven (nth / skip / step_by / count / last / size_hint)
+    if let Err(e) = super::common::iter_conformance(
+        "iter_modules()",
+        || bundle.iter_modules().map(|r| r.map(|m| (m.id(), m.data().to_vec())).map_err(|e| e.to_string())),
+        &want,
+    ) {
+        return Verdict::Fail(e);
+    }
 
     // the generic oracle must agree as well, with every in-buffer range served
     match check_bytes(b, true) {
